@@ -28,7 +28,7 @@ def gen_case(r):
     if route == "str":
         toks, delim, d2 = c10.gen_str(r)
         return ("str", toks, delim), [d2, d], None
-    p = G.guided_path(r, d, max_len=4, miss=12, mode="typed", labels=True, meaningful=True, jsonable=True)
+    p = G.guided_path(r, d, max_len=4, miss=12, mode="typed", labels=True, meaningful=True, jsonable=True, cond_depth=3)
     d2 = G.doc(r, 3, sc=lambda rr: G.json_value(rr, 0))
     spec = None
     if route == "spec":
